@@ -164,10 +164,11 @@ def find_case(value, service_name='qr_find_scp', sop_default=None):
 
 # ---- C-MOVE ------------------------------------------------------------------------------------
 def move_case(value):
-    msg_id, sop, pc_id, nsub, store_statuses, outcome_kind = value
+    msg_id, sop, pc_id, nsub, store_statuses, outcome_kind = value[:6]
+    confirm = value[6] if len(value) > 6 else True      # does the destination confirm the release of its association?
     from pynetdicom2 import sopclass, exceptions
     case = {'svc': 'qr_move_scp', 'msg_id': msg_id, 'sop': sop, 'pc_id': pc_id, 'nsub': nsub,
-            'store_statuses': store_statuses, 'outcome': outcome_kind}
+            'store_statuses': store_statuses, 'outcome': outcome_kind, 'dest_confirms_release': confirm}
 
     def on_move(ctx, ds, destination):
         if outcome_kind == 'raise':
@@ -179,8 +180,11 @@ def move_case(value):
     ae.add_scu(sopclass.storage_scu, [svc.SC_STORAGE])
     req = {0x0002: sop, 0x0100: 0x0021, 0x0110: msg_id, 0x0600: 'DEST', 0x0700: 0}
     ident = svc.enc_ds(svc.simple_ds(PatientID='1', QueryRetrieveLevel='PATIENT'))
-    acc, fac, exc = run_primary(ae, [(pc_id, sop)], [(req, ident, pc_id)], [svc.sub_plan(store_statuses)])
-    expect_clean(exc, case, 'C-MOVE')
+    acc, fac, exc = run_primary(ae, [(pc_id, sop)], [(req, ident, pc_id)], [svc.sub_plan(store_statuses, confirm_release=confirm)])
+    if confirm or nsub == 0 or outcome_kind == 'raise':
+        expect_clean(exc, case, 'C-MOVE')
+    elif exc is not None and not isinstance(exc, exceptions.NetDICOMError):
+        expect_clean(exc, case, 'C-MOVE')       # (a library time-out after everything was answered is fine)
     rsps = fac.instances[0].sent_msgs()
     if not rsps:
         raise Violation('%s:C-MOVE-RQ:answers' % PROP, 'C-MOVE request was not answered', case)
@@ -346,7 +350,7 @@ FAMILIES = {
             lambda v: find_case(v, 'modality_work_list_scp')),
     'move': (st.tuples(msg_ids, uids, pc_ids, st.integers(0, 4),
                        st.lists(st.sampled_from([0, 0, 0xB000, 0xA700, 0xC000]), min_size=1, max_size=4),
-                       st.sampled_from(['ok', 'ok', 'ok', 'raise'])), move_case),
+                       st.sampled_from(['ok', 'ok', 'ok', 'raise']), st.sampled_from([True, True, False])), move_case),
     'n_action': (st.tuples(msg_ids, pc_ids, uids, st.integers(0, 3), st.integers(0, 3), st.sampled_from(['ok', 'ok', 'raise']),
                            st.sampled_from(['list', 'tuple', 'iterator', 'generator', 'none-if-empty'])),
                  action_case),
@@ -425,7 +429,7 @@ def replay(case):
     elif s in ('qr_find_scp', 'modality_work_list_scp'):
         find_case((case['msg_id'], case['sop'], case['pc_id'], case['nmatch'], oc), s)
     elif s == 'qr_move_scp':
-        move_case((case['msg_id'], case['sop'], case['pc_id'], case['nsub'], case['store_statuses'], oc))
+        move_case((case['msg_id'], case['sop'], case['pc_id'], case['nsub'], case['store_statuses'], oc, case.get('dest_confirms_release', True)))
     elif s == 'StorageCommitment.n_action':
         action_case((case['msg_id'], case['pc_id'], case['transaction'], case['nok'], case['nfail'], oc, case.get('form', 'list')))
     else:
